@@ -42,6 +42,10 @@ def case_c(text):
     return "c =%s %s" % (esc(text), uw_field(text))
 
 
+def case_t(text):
+    return "t =%s %s" % (esc(text), uw_field(text))
+
+
 def case_eq(t1, t2, rel):
     return "eq =%s =%s %s %s" % (esc(t1), esc(t2), uw_field(t1, t2), rel)
 
@@ -62,6 +66,8 @@ def parse_case(case):
     w = case.split()
     if w[0] == "c":
         return "c", unesc(w[1][1:]), None, None
+    if w[0] == "t":
+        return "t", unesc(w[1][1:]), None, None
     if w[0] == "l":
         return "l", [(x[0], unesc(x[1:])) for x in w[2:]], None, None
     if w[0] == "m":
@@ -257,6 +263,23 @@ def branches(t, last_notifies, cont):
     r, d1 = branches(t[3], last_notifies, cont)
     l, d2 = branches(t[1], t[2] == ".", r)
     return l, d1 or d2
+
+
+def lark_shape(t, terminal=True):
+    """The Lark tree the grammar file prescribes for a `tree_of` tree, written as the driver
+    writes it: rule(child,...), connectors notify()/quiet(), NAME tokens escaped; brackets inlined."""
+    k = t[0]
+    if k == "leaf":
+        a = t[1]
+        return {"T": lambda: "trait(%s)" % esc(a[1]), "items": lambda: "items()",
+                "M": lambda: "metadata(%s)" % esc(a[1]), "*": lambda: "anytrait()"}[a[0]]()
+    if k == "grp":
+        return lark_shape(t[1], False)
+    if k == "par":
+        return "%s(%s,%s)" % ("parallel_terminal" if terminal else "parallel",
+                              lark_shape(t[1], terminal), lark_shape(t[2], terminal))
+    return "%s(%s,%s(),%s)" % ("series_terminal" if terminal else "series", lark_shape(t[1], False),
+                               "notify" if t[2] == "." else "quiet", lark_shape(t[3], terminal))
 
 
 def denote(text):
